@@ -4,7 +4,8 @@ import os
 from . import core, gen, trees
 from .decomp import decompose
 
-ERRNO = {"EIO": 5, "ENOSPC": 28, "EACCES": 13, "EXDEV": 18, "EROFS": 30, "EMFILE": 24, "EDQUOT": 122, "ENOENT": 2}
+ERRNO = {"EIO": 5, "ENOSPC": 28, "EACCES": 13, "EXDEV": 18, "EROFS": 30, "EMFILE": 24, "EDQUOT": 122, "ENOENT": 2, "EPERM": 1,
+         "EEXIST": 17, "EINTR": 4, "EBUSY": 16, "ENAMETOOLONG": 36, "ETXTBSY": 26, "ENOTEMPTY": 39, "EISDIR": 21}
 
 
 class Project:
@@ -85,7 +86,7 @@ def phase_of(op, box_root=None):
     if k == "opendir":
         return "discovery"
     if k == "rename":
-        return "rename"
+        return "src-renamed-away" if (p.endswith(".rs") and "/tmp/" not in p) else "rename"
     if p.endswith(".rs") or p.endswith(".rs (deleted)"):
         if k == "openr":
             return "src-read-open"
